@@ -25,7 +25,7 @@ def run(ctx):
              ('K-E2E', [gen.gen_e2e(rng.fork('e%d' % k), k, maxit_max=30, r_max=3, prior=rng.choice(['zero', 'garbage']))[0] for k in range(ctx.budget(300, 10000))]),
              ('K-LAYOUT', gen.layout_cases(4))]
     for name, cs in comps:
-        res = ctx.component(name, cs)
+        res = ctx.component(name + ' (implementation only)', cs, model=False)
         n_eval += len(cs)
         keys.add(name)
     # malformed adjacency / affinity files through the in-process readers (implementation only)
